@@ -629,6 +629,22 @@ theorem pres_lapPrefix (ph : Phys) : Pres I (lapPrefix ph) := by
     intro s hs
     exact pres_bind _ _ (pres_getlapFull ops ph _) (fun _ => pres_pure _) s hs
 
+/-- a time seek keeps whatever the sample seek it resolves to keeps (the target arithmetic is in doubles and opaque here: any target will do) -/
+theorem pres_timeSeek (seekF : Int → M Int) (hl : ∀ pos, Pres I (seekF pos)) (secs : Float) : Pres I (timeSeek seekF secs) := by
+  unfold timeSeek
+  apply pres_get_bind
+  intro s hs
+  refine (?_ : Pres I _) s hs
+  apply pres_ite
+  · exact pres_pure _
+  · apply pres_ite
+    · exact pres_pure _
+    · apply pres_ite
+      · exact pres_pure _
+      · split
+        · exact pres_pure _
+        · exact hl _
+
 /-- a lapped seek keeps whatever its inner seek keeps: collecting the lapping samples, priming and `lapout` are made of the same steps -/
 theorem pres_seekLap (ph : Phys) (localseek : M Int) (hl : Pres I localseek) : Pres I (seekLap ph localseek) := by
   unfold seekLap
@@ -789,7 +805,7 @@ theorem jOps (s0 : VF) : InvOps (J s0) where
   take := fun s h n => ⟨sinvOps.take s h.1 n, sameFile_trans h.2 ⟨rfl, rfl, rfl, rfl, rfl, rfl, rfl, rfl⟩⟩
   exec := fun f p s h hnr => ⟨sinvOps.exec f p s h.1 hnr, sameFile_trans h.2 (same_execPlan f p s hnr)⟩
 
-/-- states reachable by any sequence of reads, sample-accurate seeks, page seeks and raw seeks, plain or lapped -/
+/-- states reachable by any sequence of reads, sample-accurate seeks, page seeks, raw seeks and time seeks, plain or lapped -/
 inductive Reach (ph : Phys) (s : VF) : VF → Prop
   | refl : Reach ph s s
   | read (t : VF) (n : Int) : Reach ph s t → Reach ph s ((readFloat ph n).run t).2
@@ -799,6 +815,10 @@ inductive Reach (ph : Phys) (s : VF) : VF → Prop
   | seekLap (t : VF) (pos : Int) : Reach ph s t → Reach ph s ((File.seekLap ph (pcmSeek ph (rawSeek ph) pos)).run t).2
   | pageLap (t : VF) (pos : Int) : Reach ph s t → Reach ph s ((File.seekLap ph (pcmSeekPage ph (rawSeek ph) pos)).run t).2
   | rawLap (t : VF) (pos : Int) : Reach ph s t → Reach ph s ((File.seekLap ph (rawSeek ph pos)).run t).2
+  | time (t : VF) (secs : Float) : Reach ph s t → Reach ph s ((timeSeek (pcmSeek ph (rawSeek ph)) secs).run t).2
+  | timePage (t : VF) (secs : Float) : Reach ph s t → Reach ph s ((timeSeek (pcmSeekPage ph (rawSeek ph)) secs).run t).2
+  | timeLap (t : VF) (secs : Float) : Reach ph s t → Reach ph s ((File.seekLap ph (timeSeek (pcmSeek ph (rawSeek ph)) secs)).run t).2
+  | timePageLap (t : VF) (secs : Float) : Reach ph s t → Reach ph s ((File.seekLap ph (timeSeek (pcmSeekPage ph (rawSeek ph)) secs)).run t).2
 
 theorem reach_inv {I : VF → Prop} (ops : InvOps I) (ph : Phys) (s t : VF) (h : Reach ph s t) (hs : I s) : I t := by
   induction h with
@@ -810,6 +830,10 @@ theorem reach_inv {I : VF → Prop} (ops : InvOps I) (ph : Phys) (s t : VF) (h :
   | seekLap t pos _ ih => exact pres_seekLap ops ph _ (fun v hv => inv_pcmSeek_raw ops ph pos v hv) t ih
   | pageLap t pos _ ih => exact pres_seekLap ops ph _ (fun v hv => inv_pcmSeekPage_raw ops ph pos v hv) t ih
   | rawLap t pos _ ih => exact pres_seekLap ops ph _ (pres_rawSeek ops ph pos) t ih
+  | time t secs _ ih => exact pres_timeSeek ops _ (fun pos v hv => inv_pcmSeek_raw ops ph pos v hv) secs t ih
+  | timePage t secs _ ih => exact pres_timeSeek ops _ (fun pos v hv => inv_pcmSeekPage_raw ops ph pos v hv) secs t ih
+  | timeLap t secs _ ih => exact pres_seekLap ops ph _ (pres_timeSeek ops _ (fun pos v hv => inv_pcmSeek_raw ops ph pos v hv) secs) t ih
+  | timePageLap t secs _ ih => exact pres_seekLap ops ph _ (pres_timeSeek ops _ (fun pos v hv => inv_pcmSeekPage_raw ops ph pos v hv) secs) t ih
 
 /-- a seekable handle without stream state (just opened, or after any failed seek) is consistent -/
 theorem sinv_of_opened (s : VF) (hk : s.seekable = true) (hr : s.ready = OPENED) : SInv s := by
